@@ -112,7 +112,14 @@ class TaskScheduler(object):
                 self._schedule_batch(task.batch)
                 self._tasks.pop()
             else:
-                task._compute()
+                try:
+                    task._compute()
+                except BaseException:
+                    # A future that failed while computing (e.g. a Future whose value
+                    # provider raised) has stored its error; it is delivered to the
+                    # tasks awaiting it, like any other failed dependency.
+                    if not task.is_computed():
+                        raise
                 self._tasks.pop()
 
     def _schedule_batch(self, batch):
